@@ -28,6 +28,20 @@ def _compile(entry):
     import importlib
     # region predicates may use helper predicates exported by the bounded module of their property
     env["parts"] = lambda p: importlib.import_module("contracts.parts.%s_bounded" % p)
+
+    def contains_bytes(x, needle):
+        """does any bytes/str leaf of a nested case contain `needle`?"""
+        if isinstance(x, (bytes, bytearray)):
+            return needle in bytes(x) if isinstance(needle, bytes) else False
+        if isinstance(x, str):
+            return needle in x if isinstance(needle, str) else False
+        if isinstance(x, (tuple, list)):
+            return any(contains_bytes(e, needle) for e in x)
+        if isinstance(x, dict):
+            return any(contains_bytes(e, needle) for e in x.values())
+        return False
+
+    env["contains_bytes"] = contains_bytes
     code = compile(entry["region"], "<known-finding %s>" % entry.get("id"), "eval")
     # one namespace (not globals + locals): comprehensions inside a region expression only see globals
     return lambda i, what="": eval(code, dict(env, i=i, case=i, what=what))
